@@ -28,24 +28,36 @@ def families(tier):
                                     arrival_ticks=list(T3), hop_counts=list(H4), tick="1 s")})
 
     # -- documented-pattern QueuedResource ---------------------------------------------------------
-    fam("QR-FIFO", "QR", _grid(policy=["FIFO"], conc=[1, 2], cap=[None, 1] if q else [None, 1, 2]),
+    fam("QR-FIFO", "QR", _grid(policy=["FIFO"], conc=[1, 2], cap=[None, 1]),
         patterns(N, T3, H4, (0, 1, 2)), chunks=8 if q else 24,
-        requests=f"1..{N}", service_ticks=[0, 1, 2], concurrency=[1, 2], capacity=["inf", 1] if q else ["inf", 1, 2])
+        requests=f"1..{N}", service_ticks=[0, 1, 2], concurrency=[1, 2], capacity=["inf", 1])
+    if not q:
+        fam("QR-FIFO-cap2", "QR", _grid(policy=["FIFO"], conc=[1, 2], cap=[2]),
+            patterns(3, T3, H4, (0, 1, 2)), chunks=8,
+            requests="1..3", service_ticks=[0, 1, 2], concurrency=[1, 2], capacity=[2])
     fam("QR-LIFO", "QR", _grid(policy=["LIFO"], conc=[1, 2], cap=[None] if q else [None, 2]),
-        patterns(3, T3, H4, (0, 1, 2)), chunks=8,
-        requests="1..3", service_ticks=[0, 1, 2], concurrency=[1, 2])
+        patterns(3, T3, H4, (1, 2) if q else (0, 1, 2)), chunks=8,
+        requests="1..3", service_ticks=[1, 2] if q else [0, 1, 2], concurrency=[1, 2])
     fam("QR-Priority", "QR", _grid(policy=["Priority"], conc=[1, 2], cap=[None, 2]),
-        patterns(3, T3, H4, (1,) if q else (0, 1, 2), prios=(0, 1)), chunks=4 if q else 16,
-        requests="1..3", service_ticks=[1] if q else [0, 1, 2], priorities=[0, 1], concurrency=[1, 2],
+        patterns(3, T3, H4, (1,) if q else (0, 1), prios=(0, 1)), chunks=4 if q else 16,
+        requests="1..3", service_ticks=[1] if q else [0, 1], priorities=[0, 1], concurrency=[1, 2],
         capacity=["inf", 2])
     # -- hand-wired Queue + QueueDriver + worker -----------------------------------------------------
-    fam("QDW-FIFO", "QDW", _grid(policy=["FIFO"], conc=[1, 2], cap=[None] if q else [None, 1]),
-        patterns(N, T3, H4, (0, 1, 2)), chunks=8 if q else 24,
-        requests=f"1..{N}", service_ticks=[0, 1, 2], concurrency=[1, 2], capacity=["inf"] if q else ["inf", 1])
+    fam("QDW-FIFO", "QDW", _grid(policy=["FIFO"], conc=[1, 2], cap=[None]),
+        patterns(N, T3, H4, (1, 2) if q else (0, 1, 2)), chunks=8 if q else 24,
+        requests=f"1..{N}", service_ticks=[1, 2] if q else [0, 1, 2], concurrency=[1, 2], capacity=["inf"])
+    if not q:
+        fam("QDW-FIFO-cap1", "QDW", _grid(policy=["FIFO"], conc=[1, 2], cap=[1]),
+            patterns(3, T3, H4, (0, 1, 2)), chunks=8,
+            requests="1..3", service_ticks=[0, 1, 2], concurrency=[1, 2], capacity=[1])
     # -- Server with each concurrency model ------------------------------------------------------------
-    fam("Server-int-FIFO", "Server", _grid(model=["int"], policy=["FIFO"], conc=[1, 2], cap=[None] if q else [None, 1]),
-        patterns(N, T3, H4, (0, 1, 2)), chunks=8 if q else 24,
-        requests=f"1..{N}", service_tick_sequences=[0, 1, 2], concurrency=[1, 2], capacity=["inf"] if q else ["inf", 1])
+    fam("Server-int-FIFO", "Server", _grid(model=["int"], policy=["FIFO"], conc=[1, 2], cap=[None]),
+        patterns(N, T3, H4, (1, 2) if q else (0, 1, 2)), chunks=8 if q else 24,
+        requests=f"1..{N}", service_tick_sequences=[1, 2] if q else [0, 1, 2], concurrency=[1, 2], capacity=["inf"])
+    if not q:
+        fam("Server-int-FIFO-cap1", "Server", _grid(model=["int"], policy=["FIFO"], conc=[1, 2], cap=[1]),
+            patterns(3, T3, H4, (0, 1, 2)), chunks=8,
+            requests="1..3", service_tick_sequences=[0, 1, 2], concurrency=[1, 2], capacity=[1])
     fam("Server-fixed-LIFO-Priority", "Server",
         _grid(model=["fixed"], policy=["LIFO", "Priority"], conc=[1, 2], cap=[None]),
         patterns(3, T3, H4, (1, 2), prios=(0, 1)) if not q else patterns(3, T3, H4, (1,), prios=(0, 1)), chunks=4,
@@ -75,9 +87,10 @@ def families(tier):
         requests=f"1..{3 if q else 4}", shift_capacities_per_tick=["1", "2", "0,1", "0,2", "1,0,2", "2,1", "1,2"],
         service_ticks=[1, 2])
     fam("Reneging", "Reneging", _grid(conc=[1, 2], patience=[0, 1], cap=[None]),
-        patterns(3, T3, H4, (1, 2)), chunks=4, requests="1..3", patience_ticks=[0, 1], concurrency=[1, 2])
-    fam("Balking", "Balking", _grid(conc=[1], thr=[1, 2], cap=[None, 2]),
-        patterns(3, T3, H4, (1,), rs=R2), chunks=4, requests="1..3", balk_threshold=[1, 2],
+        patterns(3, T3, H4, (1,) if q else (1, 2)), chunks=4, requests="1..3", patience_ticks=[0, 1],
+        concurrency=[1, 2], service_ticks=[1] if q else [1, 2])
+    fam("Balking", "Balking", _grid(conc=[1], thr=[1] if q else [1, 2], cap=[None, 2]),
+        patterns(3, T3, H4, (1,), rs=R2), chunks=4, requests="1..3", balk_threshold=[1] if q else [1, 2],
         owned_random_answers=list(R2))
     fam("Pooled", "Pooled", _grid(conc=[1, 2], svc=[0, 1, 2], cap=[None, 1]),
         patterns(3 if q else 4, T3, H4, (0,)), chunks=2,
